@@ -3,6 +3,7 @@ a real Strategy holding a real portfolio; TLC (Trace_BtWeigh / BtWeigh)
 recomputes the documented weights - exactly for the rational algos, as
 relations over exact window statistics for the risk-based ones - and compares."""
 import math
+import json
 import random
 from fractions import Fraction
 
@@ -204,9 +205,10 @@ def run(prop, tier, replay=None):
         c["rseed"] = rng.randint(0, 10**6)
         cases.append(c)
     if replay:
+        import base64
         import pickle
 
-        cases = [pickle.load(open(replay, "rb"))]
+        cases = [pickle.loads(base64.b64decode(json.load(open(replay))["case_pickle_b64"]))]
     traces = common.pool_map(run_case, cases, chunksize=32)
     for i, t in enumerate(traces):
         t["tid"] = i + 1
@@ -228,7 +230,7 @@ def run(prop, tier, replay=None):
             if sig in seen and len(rep.violations) >= 6:
                 continue
             seen.add(sig)
-            rep.violation(sig, {"kind": "weigh", "trace": traces[tid - 1], "verdict": v}, "%s case %d: %s exc=%s" % (algo, tid, ",".join(v["clauses"]), traces[tid - 1]["exc"]))
+            rep.violation(sig, {"kind": "weigh", "case_pickle_b64": __import__("base64").b64encode(__import__("pickle").dumps(cases[tid - 1])).decode(), "trace": traces[tid - 1], "verdict": v}, "%s case %d: %s exc=%s" % (algo, tid, ",".join(v["clauses"]), traces[tid - 1]["exc"]))
     rep.extra["verdicts"] = counts
     rep.extra["cases_per_algo"] = per_algo
     rep.cov["states"] = max(rep.cov["states"], 1)
